@@ -184,6 +184,19 @@ def gen_memory(rng, quick):
                       "compress": comp, "damage": [["trunc_u", 40, 160] if quick else ["trunc_u", 600, 2048]] + ext})
         cases.append({"kind": "memory", "obj": {"kind": "udict", "n": 10, "dense": True, "seed": 12},
                       "compress": comp, "damage": [["trunc_all"]] + ext})
+    # entries that cannot be deleted (symlinked entry directory: rmtree refuses symlinks; a registered store backend
+    # whose clear_item does nothing) and warnings turned into errors (python -W error): recovery must still be
+    # "recompute and return the value" -- no retry loop, no UserWarning escaping
+    few = [["trunc", 0], ["trunc", 3], ["frac", 1, 2], ["trunc", 10 ** 9], ["extend", 1], ["double"]]
+    for comp in [False, True] + ([] if quick else [["gzip", 3], ["lzma", 3]]):
+        for und in ("symlink", "noclear"):
+            for werror in (False, True):
+                cases.append({"kind": "memory", "obj": small[0], "compress": comp, "undeletable": und, "werror": werror,
+                              "damage": few if quick else [["trunc_all"]] + ext})
+        cases.append({"kind": "memory", "obj": small[1], "compress": comp, "werror": True,
+                      "damage": [["trunc_all"]] + ext})
+        cases.append({"kind": "memory", "obj": large[0], "compress": comp, "werror": True,
+                      "damage": [["trunc_auto", 30 if quick else 300]] + ext})
     return cases
 
 
@@ -287,9 +300,11 @@ def judge_load(c, r):
 def judge_memory(c, r):
     viol, hang = [], []
     for x in r["results"]:
-        what = "Memory(compress=%s): output.pkl %s (%d -> %d bytes)" % (c["compress"], x["damage"], x["orig_len"], x["len"])
+        what = "Memory(compress=%s%s%s): output.pkl %s (%d -> %d bytes)" % (
+            c["compress"], ", entry not deletable (%s)" % c["undeletable"] if c.get("undeletable") else "",
+            ", warnings as errors" if c.get("werror") else "", x["damage"], x["orig_len"], x["len"])
         if x["code"].startswith("H"):
-            hang.append(what + ": the cached call never returned")
+            hang.append(what + ": the cached call never returned (%s)" % x["code"][2:])
         elif x["code"] != "E":
             viol.append(what + ": the cached call gave %s instead of the value" % x["code"])
         elif x["after"] != "E":
